@@ -24,12 +24,12 @@ import (
 )
 
 type propInfo struct {
-	Bin         string `json:"bin"`
+	Bin         string   `json:"bin"`
 	ExtraBins   []string `json:"extra_bins"`
-	QuickS      int    `json:"quick_s"`
-	ThoroughS   int    `json:"thorough_s"`
-	Level       string `json:"level"`
-	Rule        string `json:"rule"`
+	QuickS      int      `json:"quick_s"`
+	ThoroughS   int      `json:"thorough_s"`
+	Level       string   `json:"level"`
+	Rule        string   `json:"rule"`
 	Assumptions []string `json:"assumptions"`
 	Real        []string `json:"real_components"`
 	Stub        []string `json:"stubbed_components"`
@@ -44,26 +44,27 @@ type violation struct {
 }
 
 type workerOut struct {
-	Runs         int               `json:"runs"`
-	RunsByWorld  map[string]int    `json:"runs_by_world"`
-	Steps        int64             `json:"steps"`
-	Yields       int64             `json:"yields"`
-	Preempts     int64             `json:"preempts"`
-	SimSeconds   float64           `json:"sim_seconds"`
-	WallSeconds  float64           `json:"wall_seconds"`
-	Stalled      int               `json:"stalled"`
-	OverStep     int               `json:"over_step"`
-	Leaked       int               `json:"leaked"`
-	Nontrivial   int               `json:"nontrivial"`
-	Fingerprints []string          `json:"fingerprints"`
-	Probes       map[string]int    `json:"probes"`
-	Faults       map[string]int    `json:"faults"`
-	Samples      []json.RawMessage `json:"samples"`
-	Violations   []violation       `json:"violations"`
-	Known        map[string]int    `json:"known"`
-	DetChecks    int               `json:"determinism_rechecks"`
-	DetFailures  []string          `json:"determinism_failures"`
-	Error        string            `json:"error"`
+	Runs           int               `json:"runs"`
+	RunsByWorld    map[string]int    `json:"runs_by_world"`
+	Steps          int64             `json:"steps"`
+	Yields         int64             `json:"yields"`
+	Preempts       int64             `json:"preempts"`
+	SimSeconds     float64           `json:"sim_seconds"`
+	WallSeconds    float64           `json:"wall_seconds"`
+	Stalled        int               `json:"stalled"`
+	OverStep       int               `json:"over_step"`
+	Leaked         int               `json:"leaked"`
+	Nontrivial     int               `json:"nontrivial"`
+	Fingerprints   []string          `json:"fingerprints"`
+	Probes         map[string]int    `json:"probes"`
+	Faults         map[string]int    `json:"faults"`
+	Samples        []json.RawMessage `json:"samples"`
+	Violations     []violation       `json:"violations"`
+	Known          map[string]int    `json:"known"`
+	DetChecks      int               `json:"determinism_rechecks"`
+	DetFailures    []string          `json:"determinism_failures"`
+	Irreproducible []string          `json:"irreproducible_candidates"`
+	Error          string            `json:"error"`
 }
 
 type knownFinding struct {
@@ -275,6 +276,7 @@ func main() {
 			agg.Nontrivial += o.Nontrivial
 			agg.DetChecks += o.DetChecks
 			agg.DetFailures = append(agg.DetFailures, o.DetFailures...)
+			agg.Irreproducible = append(agg.Irreproducible, o.Irreproducible...)
 			for k, v := range o.RunsByWorld {
 				agg.RunsByWorld[k] += v
 			}
@@ -334,7 +336,9 @@ func main() {
 		if rc == 1 {
 			confirmed = append(confirmed, v)
 		} else {
-			trouble = append(trouble, fmt.Sprintf("replay %s did not reproduce %s/%s in a fresh process (nondeterminism in harness?)", v.Replay, v.Clause, v.Signature))
+			// not a violation: only a history that replays exactly is ever reported
+			agg.Irreproducible = append(agg.Irreproducible, fmt.Sprintf("replay %s did not reproduce %s/%s in a fresh process", v.Replay, v.Clause, v.Signature))
+			_ = os.Remove(v.Replay)
 		}
 	}
 	// a crash of the code under test is a violation of the property whose run crashed
@@ -358,6 +362,12 @@ func main() {
 		fmt.Printf("VIOLATION property=%s replay=%s\n", prop, v.Replay)
 		fmt.Printf("  clause=%s signature=%q\n  %s\n", v.Clause, v.Signature, v.Detail)
 		exit = 1
+	}
+	for _, n := range agg.Irreproducible {
+		fmt.Fprintln(os.Stderr, "NOTE: candidate violation that did not replay (not reported):", n)
+	}
+	if len(agg.Irreproducible) > 5 {
+		trouble = append(trouble, fmt.Sprintf("%d candidate violations did not replay: the simulation is not deterministic enough to be trusted", len(agg.Irreproducible)))
 	}
 	if len(agg.DetFailures) > 0 {
 		trouble = append(trouble, "determinism re-check failed: "+strings.Join(agg.DetFailures, "; "))
@@ -505,30 +515,31 @@ func writeEvidence(prop, tier string, seed int64, info propInfo, agg *workerOut,
 		hours = 1e-9
 	}
 	cov := map[string]any{
-		"evaluations":            agg.Runs,
-		"distinct_nontrivial":    distinct,
-		"rule":                   info.Rule,
-		"samples":                samples,
-		"runs_by_world":          agg.RunsByWorld,
-		"nontrivial_runs":        agg.Nontrivial,
-		"scheduler_decisions":    agg.Steps,
-		"yield_points":           agg.Yields,
-		"preemptions":            agg.Preempts,
-		"simulated_seconds":      agg.SimSeconds,
-		"runs_per_hour":          float64(agg.Runs) / hours,
-		"fault_kinds_fired":      agg.Faults,
-		"probes_hit":             agg.Probes,
-		"runs_stalled":           agg.Stalled,
-		"runs_over_step_budget":  agg.OverStep,
+		"evaluations":                 agg.Runs,
+		"distinct_nontrivial":         distinct,
+		"rule":                        info.Rule,
+		"samples":                     samples,
+		"runs_by_world":               agg.RunsByWorld,
+		"nontrivial_runs":             agg.Nontrivial,
+		"scheduler_decisions":         agg.Steps,
+		"yield_points":                agg.Yields,
+		"preemptions":                 agg.Preempts,
+		"simulated_seconds":           agg.SimSeconds,
+		"runs_per_hour":               float64(agg.Runs) / hours,
+		"fault_kinds_fired":           agg.Faults,
+		"probes_hit":                  agg.Probes,
+		"runs_stalled":                agg.Stalled,
+		"runs_over_step_budget":       agg.OverStep,
 		"runs_with_leaked_goroutines": agg.Leaked,
-		"determinism_rechecks":   agg.DetChecks,
-		"determinism_failures":   len(agg.DetFailures),
-		"known_findings_observed": agg.Known,
-		"worker_processes":       workers,
-		"budget_seconds_per_worker": budget,
-		"real_components":        info.Real,
-		"stubbed_components":     info.Stub,
-		"exhaustive":             false,
+		"determinism_rechecks":        agg.DetChecks,
+		"determinism_failures":        len(agg.DetFailures),
+		"irreproducible_candidates":   len(agg.Irreproducible),
+		"known_findings_observed":     agg.Known,
+		"worker_processes":            workers,
+		"budget_seconds_per_worker":   budget,
+		"real_components":             info.Real,
+		"stubbed_components":          info.Stub,
+		"exhaustive":                  false,
 	}
 	ev := map[string]any{
 		"property_id": prop,
